@@ -477,6 +477,7 @@ func (vc *VC) restore(sn *vcSnap, o *Obligation) {
 func (vc *VC) obligeNoAssume(kind, note, reach, goal string, tags ...string) *Obligation {
 	full := implies(reach, goal)
 	extra := vc.instantiateFor(full)
+	vc.goalHints = nil
 	idx := vc.counts[kind]
 	vc.counts[kind]++
 	o := &Obligation{
